@@ -332,6 +332,19 @@ func Check(c *Case) (res kit.Result) {
 			}
 		}
 		res.Class("severalOutstandingPooledBuffers")
+		if c.C*c.K == 0 {
+			// a pool whose buffers have no storage takes any buffer without storage (its guard compares
+			// total capacities, 0 == 0): offering one allocated elsewhere, with another channel count,
+			// is one more call on an inert buffer and must not panic
+			for _, ch := range []int{0, 1, 2, 3} {
+				other := kit.AllocAny(c.T, signal.Allocator{Channels: ch, Length: 0, Capacity: 0})
+				if p, v := kit.Try(func() { pool.Put(other) }); p {
+					res.Failf("Put of an empty zero-capacity buffer with %d channels into PoolAlloc(%+v) (total capacity 0) panicked: %v", ch, c.alloc(), v)
+					return
+				}
+			}
+			res.Class("foreignEmptyBufferOfferedToAnEmptyPool")
+		}
 	case "poolAfterGrowth":
 		// A buffer obtained from a zero-capacity pool may legitimately be grown by
 		// appending a non-empty buffer to it (it then leaves the pool's capacity
